@@ -44,6 +44,10 @@ def populate(project, profile, alias='default'):
         for c in m['meta'].get('constraints', []):
             if c['type'] == 'unique':
                 uniq_cols.update(c['fields'])
+        checked = set()
+        for c in m['meta'].get('constraints', []):
+            for k, _v in (c.get('check') or []):
+                checked.add(k.split('__')[0])
         for i in range(n):
             cols, vals = ['id'] if S.pk_field(m)['name'] == 'id' else [], \
                 [i + 1] if S.pk_field(m)['name'] == 'id' else []
@@ -63,6 +67,8 @@ def populate(project, profile, alias='default'):
                     v = i + 1 if f['type'] != 'Char' else 'k%d' % (i + 1)
                 else:
                     dom = DOMAIN[f['type']]
+                    if f['name'] in checked:
+                        dom = [1, 2, 3, 4, 5, 6]
                     unique = a.get('unique') or f['name'] in uniq_cols
                     if a.get('null') and i == 1:
                         v = None
@@ -93,3 +99,213 @@ def populate(project, profile, alias='default'):
     cur.execute('PRAGMA foreign_keys = ON')
     cur.connection.commit()
     return True
+
+
+# ------------------------------------------------------------------------
+# Reference row semantics: what the rows must be after one mutation, given
+# the rows before (both in observe.row_dump form).
+
+def stored_form(ftype, value):
+    """(value, typeof) that Django's own field stores for a declared initial
+    value (independent of django-evolution's normalisation)."""
+    if value is None:
+        return (None, 'null')
+    if isinstance(value, dict) and 'callable' in value:
+        lit = value['callable']
+        if lit.startswith("'") and lit.endswith("'"):
+            return (lit[1:-1].replace("''", "'"), 'text')
+        try:
+            return (int(lit), 'integer')
+        except ValueError:
+            return (lit, 'text')
+    if ftype in ('Char', 'Text'):
+        return (str(value), 'text')
+    if ftype == 'Bool':
+        return (1 if value else 0, 'integer')
+    if ftype in ('Int', 'BigInt', 'PosInt', 'FK', 'O2O'):
+        return (int(value), 'integer')
+    if ftype == 'Decimal':
+        # Django's SQLite backend stores decimals as text-like numerics
+        return (value, 'any')
+    if ftype == 'DateTime':
+        return (str(value), 'text')
+    return (value, 'any')
+
+
+def _tables_of(project):
+    """{table: ('model', label, model) | ('m2m', label, model, field)}"""
+    out = {}
+    for label, m in S.iter_models(project):
+        out[S.table_name(label, m)] = ('model', label, m)
+        for f in m['fields']:
+            if f['type'] == 'M2M':
+                out[S.m2m_table(label, m, f)] = ('m2m', label, m, f)
+    return out
+
+
+def expected_after(pre, spec_b, spec_a, step):
+    """Returns (expected, notes).
+
+    expected: {table: {'rename_from': old table or None,
+                       'columns': {new_col: ('keep', old_col) |
+                                            ('new', stored) |
+                                            ('fill', old_col, stored)},
+                       'm2m': bool}}
+    Only tables that exist after the step are listed."""
+    label, mj = step
+    kind = mj[0]
+    tb = _tables_of(spec_b)
+    ta = _tables_of(spec_a)
+    # model identity: name after -> name before
+    def before_model(al, m):
+        if kind == 'RenameModel' and al == label and m['name'] == mj[2]:
+            return S.get_model(spec_b, label, mj[1]), label
+        if kind == 'RenameAppLabel' and al == mj[2]:
+            return S.get_model(spec_b, mj[1], m['name']), mj[1]
+        return S.get_model(spec_b, al, m['name']), al
+    expected = {}
+    for al, m in S.iter_models(spec_a):
+        mb, bl = before_model(al, m)
+        table = S.table_name(al, m)
+        if mb is None:
+            continue
+        old_table = S.table_name(bl, mb)
+        cols = {}
+        pk = S.pk_field(m)
+        if pk['name'] == 'id':
+            cols['id'] = ('keep', 'id')
+        for f in m['fields']:
+            # field identity
+            fb = None
+            is_target = (al == label or kind == 'RenameAppLabel') and \
+                kind in ('AddField', 'RenameField', 'ChangeField') and \
+                mb['name'] == mj[1]
+            if is_target and kind == 'RenameField' and f['name'] == mj[3]:
+                fb = S.get_field(mb, mj[2])
+            elif is_target and kind == 'AddField' and f['name'] == mj[2]:
+                fb = None
+            else:
+                fb = S.get_field(mb, f['name'])
+            if f['type'] == 'M2M':
+                mt = S.m2m_table(al, m, f)
+                if fb is None:
+                    expected[mt] = {'rename_from': None, 'm2m': True,
+                                    'columns': None, 'new': True}
+                else:
+                    expected[mt] = {'rename_from': S.m2m_table(bl, mb, fb),
+                                    'm2m': True, 'columns': None}
+                continue
+            col = S.column_name(f)
+            if fb is None:
+                init = mj[5] if kind == 'AddField' else None
+                cols[col] = ('new', stored_form(f['type'], init))
+            else:
+                old_col = S.column_name(fb)
+                if is_target and kind == 'ChangeField' and \
+                        f['name'] == mj[2] and 'null' in mj[3] and \
+                        not mj[3]['null'] and fb['attrs'].get('null'):
+                    cols[col] = ('fill', old_col,
+                                 stored_form(f['type'], mj[4]))
+                else:
+                    cols[col] = ('keep', old_col)
+        expected[table] = {'rename_from': old_table, 'columns': cols,
+                           'm2m': False}
+    return expected
+
+
+def compare_rows(pre, post, expected):
+    """Returns list of (clause, where) row discrepancies."""
+    out = []
+    for table, exp in expected.items():
+        if table not in post:
+            continue          # schema problem: C01's business
+        got = post[table]
+        src = exp['rename_from']
+        if exp.get('new'):
+            if got['rows']:
+                out.append(('new-table-not-empty', table))
+            continue
+        if src not in pre:
+            continue
+        old = pre[src]
+        if len(old['rows']) != len(got['rows']):
+            out.append(('row-count', '%s: %d -> %d' % (
+                table, len(old['rows']), len(got['rows']))))
+            continue
+        if exp['m2m']:
+            def strip(d):
+                idx = [i for i, c in enumerate(d['cols']) if c != 'id']
+                return sorted(tuple(sorted((r[i] for i in idx), key=repr))
+                              for r in d['rows'])
+            if strip(old) != strip(got):
+                out.append(('m2m-links-changed', table))
+            continue
+        # key rows by primary key value: 'id' or first column both sides
+        def keyed(d, key_col):
+            if key_col not in d['cols']:
+                return None
+            i = d['cols'].index(key_col)
+            return {r[i][0]: r for r in d['rows']}
+        # find pk columns
+        pk_new = 'id' if 'id' in got['cols'] else None
+        pk_old = 'id' if 'id' in old['cols'] else None
+        if pk_new is None or pk_old is None:
+            # explicit primary key: identify through the mapping
+            for c, how in exp['columns'].items():
+                if how[0] == 'keep' and c in got['cols'] and \
+                        how[1] in old['cols']:
+                    vals = [r[old['cols'].index(how[1])][0]
+                            for r in old['rows']]
+                    if len(set(vals)) == len(vals) and None not in vals:
+                        pk_new, pk_old = c, how[1]
+                        break
+        if pk_new is None:
+            continue
+        gk, ok_ = keyed(got, pk_new), keyed(old, pk_old)
+        if set(gk) != set(ok_):
+            out.append(('row-identity', table))
+            continue
+        for c, how in exp['columns'].items():
+            if c not in got['cols']:
+                continue
+            ci = got['cols'].index(c)
+            for k, row in gk.items():
+                val = row[ci]
+                if how[0] == 'new':
+                    want = how[1]
+                    if not _same(val, want):
+                        out.append(('new-column-initial',
+                                    '%s.%s got %r want %r' % (table, c, val,
+                                                              want)))
+                        break
+                else:
+                    oc = how[1]
+                    if oc not in old['cols']:
+                        break
+                    oval = ok_[k][old['cols'].index(oc)]
+                    if how[0] == 'fill' and oval[0] is None:
+                        if not _same(val, how[2]):
+                            out.append(('null-fill',
+                                        '%s.%s got %r want %r' % (
+                                            table, c, val, how[2])))
+                            break
+                    elif val != oval:
+                        role = 'renamed' if (oc != c or src != table) \
+                            else 'surviving'
+                        out.append(('value-changed:%s' % role,
+                                    '%s.%s %r -> %r' % (table, c, oval,
+                                                        val)))
+                        break
+    return out
+
+
+def _same(val, want):
+    if want[1] == 'any':
+        return val[0] is not None and \
+            str(val[0]).rstrip('0').rstrip('.') == \
+            str(want[0]).rstrip('0').rstrip('.') or str(val[0]) == \
+            str(want[0])
+    if tuple(val) == tuple(want):
+        return True
+    # the sqlite3 converters of Django hand back date/time objects
+    return val[1] == want[1] and str(val[0]) == str(want[0])
